@@ -306,6 +306,33 @@ def rule_dispatch(ctx: Ctx, out: Collector) -> None:
         if any(ctx.roles.body(ev) == 'process' for ev in g.events('call')) and not have_executor:
             out.bad('CC-5', f'{g.root.module.name}::{g.root.qualname}::executor dispatch', '',
                     'node code is invoked on the run path but never through loop.run_in_executor: synchronous bodies block the loop')
+    # every body that leaves the loop thread is handed to a *registered* pool directly: a hop through another executor
+    # (asyncio.to_thread, the loop's default executor) makes the capacity of that executor a second bound on how many
+    # siblings can be in flight
+    for unit in ctx.p.functions.values():
+        if isinstance(unit.node, ast.Lambda) or not unit.is_async or not unit.module.name.startswith('ml_pipeline_engine'):
+            continue
+        env = FuncEnv.of(ctx.p, unit)
+        for c in env.own_nodes():
+            if not isinstance(c, ast.Call):
+                continue
+            names = [t[1] for t in env.resolve_call(c) if t[0] == 'ext']
+            via = None
+            if any(nm == 'asyncio.to_thread' for nm in names):
+                via = 'asyncio.to_thread (the loop\'s default executor)'
+            elif isinstance(c.func, ast.Attribute) and c.func.attr == 'run_in_executor' and c.args \
+                    and isinstance(c.args[0], ast.Constant) and c.args[0].value is None:
+                via = 'run_in_executor(None, ...) (the loop\'s default executor)'
+            if via is None:
+                continue
+            cons = f'{unit.module.name}::{unit.qualname}::{unparse(c)[:60]} [bodies go to a registered pool directly]'
+            if cons in seen:
+                continue
+            seen.add(cons)
+            out.bad('CC-5', cons, ctx.p.loc(unit, c),
+                    f'work is sent through {via}: every call in flight holds one of its threads, so the number of siblings that can run '
+                    f'at the same time is bounded by an executor the engine neither registered nor validated (a capped or busy default '
+                    f'executor serialises them although the registered pool has idle workers)', props={'C06', 'C17'})
     # spawn primitive
     for fid, g in ctx.run_graphs().items():
         for ev in g.events('call'):
@@ -400,6 +427,31 @@ def rule_wrapper_kind(ctx: Ctx, out: Collector) -> None:
                     for e, pol in gs:
                         if isinstance(e, ast.Call) and (dotted(e.func) or '').split('.')[-1] == 'iscoroutinefunction':
                             kind_guard = pol
+                    # SH-6: the wrapper is shared by every run of every chart that uses the node class: it must not keep state
+                    wenv = FuncEnv.of(ctx.p, w)
+                    wlocals = set(wenv.local_defs())
+                    from ..effects import MUTATORS
+                    muts = []
+                    for x in wenv.own_nodes():
+                        tgt = None
+                        if isinstance(x, ast.Call) and isinstance(x.func, ast.Attribute) and x.func.attr in MUTATORS | {'update', 'clear', 'setdefault'} \
+                                and isinstance(x.func.value, ast.Name):
+                            tgt = x.func.value.id
+                        elif isinstance(x, (ast.Subscript, ast.Attribute)) and isinstance(x.ctx, (ast.Store, ast.Del)) and isinstance(x.value, ast.Name):
+                            tgt = x.value.id
+                        elif isinstance(x, ast.Nonlocal):
+                            tgt = x.names[0]
+                        if tgt is not None and tgt not in wlocals:
+                            muts.append((tgt, x))
+                    cons6 = f'{unit.module.name}::{unit.qualname}::{"async " if w.is_async else ""}def {w.name} installed as process [the generated wrapper keeps no state]'
+                    if not muts:
+                        out.ok('SH-6', cons6, ctx.p.loc(unit, w.node), 'no write to a variable of the enclosing scope')
+                    else:
+                        out.bad('SH-6', cons6, ctx.p.loc(unit, muts[0][1]),
+                                f'the process wrapper generated for the node class changes `{muts[0][0]}`, a variable of the enclosing build_node '
+                                f'call ({unparse(muts[0][1])[:60]}): the object lives as long as the node class, so what one execution stores '
+                                f'there is seen by every later run and by overlapping runs of every chart that uses the node',
+                                props={'C07', 'C08'})
                     cons = f'{unit.module.name}::{unit.qualname}::{"async " if w.is_async else ""}def {w.name} installed as process [wrapper kind follows the wrapped method]'
                     if kind_guard is not None and kind_guard == w.is_async:
                         out.ok('CC-7', cons, ctx.p.loc(unit, w.node),
